@@ -11,7 +11,8 @@ From Mxj Require Export Model.Reader.
 
 Inductive dent :=
 | DDone (x : str) (r : res value)   (* having read exactly x the decoder returned r *)
-| DEof (x : str) (r : res value).   (* having read x and then io.EOF the decoder returned r *)
+| DEof (x : str) (r : res value)    (* having read x and then io.EOF the decoder returned r *)
+| DNoProg (x : str) (r : res value). (* having read x and then io.ErrNoProgress the decoder returned r *)
 
 Definition unknown : res value := Ok (VStr (s "<<no table entry>>")).
 
@@ -28,12 +29,20 @@ Fixpoint lookup_eof (x : str) (tab : list dent) : option (res value) :=
   | _ :: t => lookup_eof x t
   end.
 
+Fixpoint lookup_np (x : str) (tab : list dent) : option (res value) :=
+  match tab with
+  | [] => None
+  | DNoProg y r :: t => if str_eqb x y then Some r else lookup_np x t
+  | _ :: t => lookup_np x t
+  end.
+
 (* state = the bytes seen so far *)
 Definition tab_machine (tab : list dent) : xmachine :=
   {| m_st := str; m_init := [];
      m_step := fun seen b => let seen' := seen ++ [b] in
                              match lookup_done seen' tab with Some r => inr r | None => inl seen' end;
-     m_eof := fun seen => match lookup_eof seen tab with Some r => r | None => unknown end |}.
+     m_eof := fun seen => match lookup_eof seen tab with Some r => r | None => unknown end;
+     m_noprog := fun seen => match lookup_np seen tab with Some r => r | None => unknown end |}.
 
 Fixpoint tab_nmj (jtab : list (str * res value)) (b : str) : res value :=
   match jtab with
@@ -161,6 +170,7 @@ Definition mismatches (cs : list rcase) : list nat := mismatches_from 0 cs.
 
 (* compact schedule notation for the case files: a chunk of data, optionally ending with io.EOF *)
 Definition dat (x : str) : list rev := map Data x.
+Definition zeros (n : nat) : list rev := repeat Zero n.
 Definition dat_eof (x : str) : list rev :=
   match List.rev x with
   | [] => [Eof]
